@@ -68,6 +68,37 @@ def main() -> None:
                             outcome[f"iter:{iface}"] = f"ok {len(got)}"
                         except BaseException as exc:  # pylint: disable=broad-exception-caught
                             outcome[f"iter:{iface}"] = f"raised {type(exc).__name__}: {str(exc)[:140]}"
+            elif case["kind"] == "relative-root":
+                # the dataset is opened by a path relative to the working directory, which then changes to a
+                # directory holding another dataset under the same relative name
+                zone = os.path.dirname(root)
+                try:
+                    os.chdir(zone)
+                    dataset = Dataset(os.path.basename(root))
+                    outcome["load"] = "ok"
+                    os.chdir(os.path.join(zone, "outside"))
+                    try:
+                        dataset.check(show_progressbar=False)
+                        outcome["check"] = "ok"
+                    except BaseException as exc:  # pylint: disable=broad-exception-caught
+                        outcome["check"] = f"raised {type(exc).__name__}: {str(exc)[:140]}"
+                    for iface in case["ifaces"]:
+                        try:
+                            got = readers.read(dataset, iface, case["split"], shuffle=0, repeat=False)
+                            outcome[f"iter:{iface}"] = f"ok {len(got)}"
+                        except BaseException as exc:  # pylint: disable=broad-exception-caught
+                            outcome[f"iter:{iface}"] = f"raised {type(exc).__name__}: {str(exc)[:140]}"
+                    try:
+                        with DatasetFiller(dataset, relative_path_from_split=Path("w")) as filler:
+                            for k in range(3):
+                                filler.write_example(values=dsmod.example(dsmod.make_id("train", 9, 0, k)), split="train")
+                        outcome["write"] = "ok"
+                    except BaseException as exc:  # pylint: disable=broad-exception-caught
+                        outcome["write"] = f"raised {type(exc).__name__}: {str(exc)[:140]}"
+                except BaseException as exc:  # pylint: disable=broad-exception-caught
+                    outcome["load"] = f"raised {type(exc).__name__}: {str(exc)[:140]}"
+                finally:
+                    os.chdir(spec["cwd"])
             elif case["kind"] == "writer":
                 try:
                     dataset = Dataset(root)
